@@ -34,7 +34,12 @@ const (
 
 var valuePoolUnicode = []string{"é", "日本", "naïve", "ß", "Ünï", "a\x00b", "tab\there", "line\nbreak", "😀", "٣", "１２", " 12 ", "1e2", "0x10", "+5", "-0", "1_000", "NaN", "Inf"}
 
+var longValues = []string{strings.Repeat("x", 300), strings.Repeat("ab,", 40), "v" + strings.Repeat("0", 70), strings.Repeat("9", 25)}
+
 func genValue(r *Rng, style string) string {
+	if r.Chance(0.004) {
+		return pick(r, longValues)
+	}
 	switch style {
 	case StoreInts:
 		return pick(r, valuePoolInt)
